@@ -2,6 +2,7 @@ package syncer
 
 import (
 	"context"
+	"slices"
 	"fmt"
 	"strconv"
 	"strings"
@@ -39,6 +40,7 @@ type crashScenario struct {
 	Kill       bool     `json:"kill,omitempty"`  // the faults are connection losses (the target stays up, the tool keeps running) instead of crashes
 	Bulk       bool     `json:"bulk,omitempty"`  // all items of one symbol arrive in one read
 	BigTxn     int      `json:"big_txn,omitempty"` // commands in the transaction of symbol tL (0 = 1100)
+	Soft       bool     `json:"soft,omitempty"`    // after an orderly stop the SAME RedisOutput is used again (in-process reconnection: StartPoint, SetRunId, Send), no crashes
 	Rekey      bool     `json:"rekey,omitempty"`   // from the first restart on the source reports a new replication id (fail-over, same history): the stored position is re-keyed
 }
 
@@ -83,6 +85,7 @@ type crashCtl struct {
 	marks   *[]string
 	nEvents int
 	kill    bool // faults are connection losses
+	noCrash bool // no crash points at all (the fault budget is spent on orderly stops)
 	merged  int  // crash points not explored because the target holds the same data as at the point before
 }
 
@@ -94,7 +97,7 @@ func (x *crashCtl) event(tag string, do func()) bool {
 		defer func() { *x.marks = append(*x.marks, fmt.Sprintf("%s->%d", tag, srv.NumReqs())) }()
 	}
 	seq0 := srv.NumReqs()
-	if x.left <= 0 {
+	if x.left <= 0 || x.noCrash {
 		do()
 		return false
 	}
@@ -203,10 +206,11 @@ func crashExec(t *testing.T, scn crashScenario, ch *mc.Chooser) (rec crashRec, m
 		env := newAofEnv(t)
 		items := buildStream(scn.Syms)
 		rec.Items = items
-		ctl := &crashCtl{env: env, ch: ch, left: scn.MaxCrashes, marks: &rec.Marks, kill: scn.Kill}
+		ctl := &crashCtl{env: env, ch: ch, left: scn.MaxCrashes, marks: &rec.Marks, kill: scn.Kill, noCrash: scn.Soft}
 		defer func() { rec.Merged = ctl.merged }()
 		ticks := tickNames(scn.Cfg)
 		cfg := scn.Cfg.outputConfig(cpKeyName)
+		var prevRo *RedisOutput // the output of the previous run when that run ended by an orderly stop
 		for runNo := 0; runNo < scn.MaxCrashes+2; runNo++ {
 			rr := runRec{FirstSeq: env.srv.NumReqs() + 1, StartDb: -1}
 			if runNo > 0 {
@@ -227,6 +231,28 @@ func crashExec(t *testing.T, scn crashScenario, ch *mc.Chooser) (rec crashRec, m
 					ids = []string{rekeyID, aofRunID}
 				}
 				env.runID = ids[0]
+				if scn.Soft && prevRo != nil {
+					// in-process reconnection (RedisInput.Run loop): the same output is asked for its start
+					// point, told the run id, and sent the stream again
+					ro = prevRo
+					var err error
+					sp, err = ro.StartPoint(context.Background(), ids)
+					if err != nil {
+						bootErr = err
+						return
+					}
+					rr.StartPoint, rr.StartDb = sp.Offset, sp.DbId
+					if sp.IsInitial() || sp.Offset < 0 || !slices.Contains(ids, sp.RunId) {
+						rr.FullSync = true
+						if err = ro.setCheckpoint(context.Background(), ids[0], aofS0, config.Version); err != nil {
+							bootErr = err
+							return
+						}
+						sp.Offset = aofS0
+					}
+					bootErr = ro.SetRunId(context.Background(), ids[0])
+					return
+				}
 				cli, err := client.NewRedis(cfg.Redis)
 				if err != nil {
 					bootErr = err
@@ -261,7 +287,7 @@ func crashExec(t *testing.T, scn crashScenario, ch *mc.Chooser) (rec crashRec, m
 					return
 				}
 				rr.StartPoint, rr.StartDb = sp.Offset, sp.DbId
-				if sp.IsInitial() || sp.Offset < 0 {
+				if sp.IsInitial() || sp.Offset < 0 || !slices.Contains(ids, sp.RunId) {
 					// no usable position: the tool takes a full sync; the (empty) snapshot
 					// ends at S0 and its completion stores S0 (sendRdb -> setCheckpoint)
 					rr.FullSync = true
@@ -385,6 +411,10 @@ func crashExec(t *testing.T, scn crashScenario, ch *mc.Chooser) (rec crashRec, m
 				crashed = doEvent(func() { run.tick("cp") })
 			}
 			rr.Stopped = stopped
+			prevRo = nil
+			if stopped {
+				prevRo = ro
+			}
 			rr.Crashed = crashed
 			early := run.ended
 			rr.Completed = !crashed && !early && !stopped && run.pos == len(items)
